@@ -1,6 +1,7 @@
 import GomlVerif.Lemmas.C12Tree
 import GomlVerif.Lemmas.C12Regex
 import GomlVerif.Lemmas.GrammarStep
+import GomlVerif.Lemmas.GrammarKinds
 import GomlVerif.Props.C04
 /-!
 # C12 — the syntax tree is lossless and positions are exact
@@ -361,6 +362,85 @@ example : (parseEvents [28, 4, 65, 5, 32, 65, 0, 1, 2, 3]).take 10 =
     [.op K_FILE none, .op K_ATTRIBUTE_LIST (some 8), .op K_ATTRIBUTE none, .advance, .advance, .advance, .advance,
      .close, .close, .op K_FN none] := by
   decide +kernel
+
+/-! ### well-formedness of the model's event list, for every token list -/
+
+/-- the kinds of the non-trivia tokens: what the parser's `Input` shows to the grammar functions -/
+def kindsOf (ts : List Tok) : List Nat := (ts.filter fun t => !isTrivia t.kind).map (·.kind)
+
+theorem stops_eq_not_trivia (k : Nat) : stops k = !isTrivia k := by
+  unfold stops
+  by_cases h : k = eofKind
+  · subst h; decide
+  · simp [h]
+
+theorem nonTrivia_eq_kindsOf (ts : List Tok) : nonTrivia ts = (kindsOf ts).length := by
+  induction ts with
+  | nil => rfl
+  | cons t ts ih =>
+    simp only [nonTrivia, ih, stops_eq_not_trivia, kindsOf, List.filter_cons]
+    cases isTrivia t.kind <;> simp <;> omega
+
+/-- the output of `file` is one `FILE` node -/
+theorem parseItems_root (toks : List Nat) : ∃ ch, (parseItems toks).out = [.node K_FILE ch] := by
+  unfold parseItems budget
+  generalize ranks * ((toks.length + 1) * (FUEL + 1)) + ranks = n
+  obtain ⟨A, B, hA⟩ := body_file
+  rw [run, hA]
+  exact ⟨_, rfl⟩
+
+/-- **`grammar_events_wellformed`: the event list the grammar functions produce satisfies the structural hypotheses
+of `buildTree_lossless` for EVERY token list** (any fuel corner, any recovery path, even if the model's call budget
+ran out): forward parents resolve (`resolve` succeeds: every chain lands on an `Open`), the resolved list is balanced —
+root opened by the first event, depth ≥ 1 until the last event closes it — and its number of `Advance`s is the number
+of `adv` leaves of the item tree. Proof: `flat_root_wellformed` (every rooted item tree, `Lemmas/GrammarFlat.lean`:
+`rf_spec` for the forward-parent chains of `wrap`, `rf_balanced`) and `run_kinv` (no node of kind `TombStone`). -/
+theorem grammar_events_wellformed (toks : List Nat) :
+    ∃ revs ch, (parseItems toks).out = [.node K_FILE ch] ∧ resolve (parseEvents toks) = some revs ∧
+      balancedFrom 0 revs = true ∧ advances revs = advsL ch := by
+  obtain ⟨ch, hch⟩ := parseItems_root toks
+  have hk : KInv (parseItems toks) := run_kinv _ _ _ ⟨rfl, by show (0 : Nat) ≠ tombK; decide⟩
+  have hk' : kindsOK (.node K_FILE ch) = true := by
+    have := hk.1; rw [hch] at this; simpa [kindsOKL] using this
+  obtain ⟨revs, h1, h2, h3⟩ := flat_root_wellformed K_FILE ch hk'
+  exact ⟨revs, ch, hch, by rw [parseEvents, hch]; exact h1, h2, h3⟩
+
+/-- … and it has one `Advance` per token, provided the call budget did not run out (`_partial`: the only missing
+lemma is `grammar_terminates`, `(parseItems toks).oof = false` for all `toks`; observed on every input of the tie) -/
+theorem grammar_events_cover_tokens_partial (toks : List Nat) (h : (parseItems toks).oof = false) :
+    ∃ revs, resolve (parseEvents toks) = some revs ∧ balancedFrom 0 revs = true ∧ toks.length ≤ advances revs := by
+  obtain ⟨revs, ch, hch, h1, h2, h3⟩ := grammar_events_wellformed toks
+  refine ⟨revs, h1, h2, ?_⟩
+  have := (file_consumes_all_tokens_partial toks h).2
+  rw [hch] at this
+  simp only [advsL, advs, Nat.add_zero] at this
+  omega
+
+/-- **`parse_lossless`: lexing, the grammar functions and tree building compose to a lossless tree** — for every rule
+table, every positive error length and every text: the lexer tiles the text (`lex_tiles`), the grammar model run on the
+kinds of its non-trivia tokens yields events inside the hypotheses of `buildTree_lossless`
+(`grammar_events_wellformed`), hence `build_tree` succeeds, the tree's text is the input, nothing is dropped, and all node
+and diagnostic ranges lie in the text. *Partial in one respect only*: the hypothesis `hb` (the model's call budget does not
+run out on this token list) stands for the unproved `grammar_terminates`; everything else — balance, forward parents,
+advance accounting, recovery paths, fuel corners — is proved for all inputs. -/
+theorem parse_lossless_partial_budget (rules : Rules) (errLen : List Char → Nat → Nat)
+    (h : ∀ s p, 0 < errLen s p) (s : List Char)
+    (hb : ∀ ts, lexAll rules errLen s = .ok ts → (parseItems (kindsOf ts)).oof = false) :
+    ∃ ts b, lexAll rules errLen s = .ok ts ∧ buildTree (parseEvents (kindsOf ts)) ts = some b ∧
+      leaves b.tree = ts ∧ textOf (leaves b.tree) = s ∧ b.dropped = [] ∧
+      (∀ x ∈ spans 0 b.tree, x.2.1 ≤ x.2.2 ∧ x.2.2 ≤ byteLen s) ∧
+      (∀ d ∈ b.diags, ∀ r, d.range = some r → r.1 ≤ r.2 ∧ r.2 ≤ byteLen s) := by
+  obtain ⟨ts, h1, h2, _, _⟩ := lex_tiles rules errLen h s
+  obtain ⟨revs, r1, r2, r3⟩ := grammar_events_cover_tokens_partial (kindsOf ts) (hb ts h1)
+  obtain ⟨b, b1, b2, b3⟩ := buildTree_lossless (parseEvents (kindsOf ts)) ts revs r1 r2
+    (by rw [nonTrivia_eq_kindsOf]; exact r3)
+  refine ⟨ts, b, h1, b1, b2, by rw [b2, h2], b3, ?_, ?_⟩
+  · have := node_ranges_in_text b.tree
+    rw [b2, h2] at this
+    exact this
+  · have := diag_ranges_in_text _ ts b b1
+    rw [h2] at this
+    exact this
 
 end grammar
 
